@@ -861,6 +861,7 @@ func init() {
 			for _, l := range []int{16, 24, 32} {
 				it = append(it, Item{PkgKey: "backend", Func: "VerifC17_Envelope", Shape: []int{l}})
 				it = append(it, Item{PkgKey: "backend", Func: "VerifC17_UnwrapIff", Shape: []int{l}})
+				it = append(it, Item{PkgKey: "backend", Func: "VerifC17_UnwrapIffRel", Shape: []int{l}})
 			}
 			it = append(it, Item{PkgKey: "backend", Func: "VerifC17_EnvelopeClear", Shape: []int{0}}, Item{PkgKey: "backend", Func: "VerifC17_EnvelopeClear", Shape: []int{1}})
 			it = append(it, Item{PkgKey: "backend", Func: "VerifC17_ISO8601", Shape: []int{0}}, Item{PkgKey: "backend", Func: "VerifC17_ISO8601", Shape: []int{1}})
